@@ -7,7 +7,20 @@
    MISMATCH ORACLE[<Cxx>] <history> op <i>: ...        the implementation's own result or dump violates the
        specification (evaluated without the allocator model)
    After a mismatch the model (resp. the ownership state) is re-synchronised from the implementation's
-   dump, so one defect does not cascade through the rest of the history. *)
+   dump, so one defect does not cascade through the rest of the history.
+   Every mismatch text is `<history id> op <index>: <what> {suite=.. policy=.. frames=.. init=..}`.
+
+   Oracles (tag = property served): C02 ownership (spec_get/put_enabled, abs(dump) = ownership state after every
+   call), C04 accounting (lower_invb of the dump, stats / stats_at / is_free / tree_stats.free_frames against the
+   ownership state, validate), C05 abs(dump) after a recover, C06 abs(dump) of a fresh allocator and exhaustion in
+   suite init, C07 HFAIL lines of the handoff twin, C08 invalid arguments => err arg and no change, C09 no panic
+   for valid parameters, C10 gets right after a drain, C11 err mem only when nothing is free (suite exhaust),
+   C12 lowerget against a brute-force search, C13 reported class, C14 per-class sums, C15 offline trees, C18
+   guard regions around the metadata buffers.
+   The ownership state is decomposed by tree (see `spec` below); offline trees are tracked from successful
+   change ops (`off_clean`: entirely free when taken offline; `off_dirty`: had allocated frames - the oracles
+   that presuppose a clean offline set are skipped while a dirty tree exists, counted as skipped_oracle).
+   SUMMARY: evaluations = OP + Q lines replayed, distinct = distinct dumps seen, histogram of calls by result. *)
 open Model
 open Conv
 open Dcommon
@@ -138,8 +151,10 @@ let timed name f =
 let where i = Printf.sprintf "%s op %s:" !hid i
 let notes = ref 0
 let note text = incr notes; if !notes <= 40 then print_endline ("NOTE " ^ text)
-let corr comp i text = report (Printf.sprintf "CORR[%s]" comp) (Printf.sprintf "%s %s" (where i) text)
-let oracle prop i text = report (Printf.sprintf "ORACLE[%s]" prop) (Printf.sprintf "%s %s" (where i) text)
+(* every mismatch names the configuration: clients filter on it (e.g. C09 excludes policy=custom) *)
+let ctx_tag () = Printf.sprintf "{suite=%s policy=%s frames=%d init=%s}" !suite !polname !frames_i (if !init_alloc then "alloc" else "free")
+let corr comp i text = report (Printf.sprintf "CORR[%s]" comp) (Printf.sprintf "%s %s %s" (where i) text (ctx_tag ()))
+let oracle prop i text = report (Printf.sprintf "ORACLE[%s]" prop) (Printf.sprintf "%s %s %s" (where i) text (ctx_tag ()))
 
 (* ------------------------------------------------------------------ dump parsing *)
 let bf_cache : (string, n list) Hashtbl.t = Hashtbl.create 4096
